@@ -69,6 +69,10 @@ class C13(Check):
             "no bound socket it did not hold before (/proc/self/fd against /proc/net/tcp*,udp*), a dial of the address "
             "is refused / the udp port can be bound, the goroutine count is back, and the corrected start of the same "
             "Server value on the SAME address serves a complete life; a verdict must repeat on three different ports; "
+            "every kind of datagram that reaches no handler followed by 3..8 requests in flight together (workers parked "
+            "inside MsgAcceptFunc before the body is decoded, inside the handler, or all datagrams readable at once; single "
+            "P, no GC): the worker of peer j gives the handler exactly that datagram's request once and peer j gets exactly "
+            "its reply; "
             "every boundary-event log is checked by direct oracles and for acceptance "
             "by the LTS inside Coq; 12 Server values over real loopback UDP/TCP sockets, each living twice, with the direct oracles; goroutine "
             "count back at baseline after every scenario. A case is one event log; distinct by hash.")
